@@ -95,6 +95,15 @@ def is_canonical(prog, families=(), fixed=0):
 
 def programs(alpha, A, K, exact=True, families=(), relevance=None, fixed=0, symmetric=True):
     """yield canonical template programs with exactly A actors; alpha(i, A) -> alphabet (list of op tuples) of actor i"""
+    if symmetric:      # the canonical-form filter is only sound if the alphabet is closed under actor permutations
+        for order in itertools.permutations(range(fixed, A)):
+            order = list(range(fixed)) + list(order)
+            perm = [0] * A
+            for new, old in enumerate(order):
+                perm[old] = new
+            for old in range(A):
+                assert set(_rename_actor_refs(alpha(old, A), perm)) == set(map(tuple, alpha(perm[old], A))), \
+                    "alphabet not closed under actor permutation"
     lists = [oplists(alpha(i, A), K) for i in range(A)]
     for prog in itertools.product(*lists):
         if exact and K > 1 and max(len(o) for o in prog) != K:
